@@ -54,9 +54,15 @@ theorem outcome_data_novalue (c : Cfg) (it : Item) (h0 : it.halves ≠ 0) : valu
   simp only [outcome, runToks, rTok]
   cases classify c it <;> simp [h0, values]
 
-theorem outcome_part_novalue (c : Cfg) (n : Nat) (d : Bool) : values (outcome c [.partialMsg n d]) = [] := by
+/-- an abandoned transmission never yields a value — on the repaired tree, or when it does not carry
+the complete encoding -/
+theorem outcome_part_novalue (c : Cfg) (w : Option Item) (n : Nat) (d : Bool) (h : c.strictEnd = true ∨ w = none) :
+    values (outcome c [.partialMsg w n d]) = [] := by
   simp only [outcome, runToks, rTok]
-  (repeat' split) <;> simp [values]
+  rcases h with h | h
+  · (repeat' split) <;> simp_all [values]
+  · subst h
+    (repeat' split) <;> simp_all [values]
 
 theorem outcome_nil (c : Cfg) : outcome c [] = [] := rfl
 
@@ -69,26 +75,32 @@ theorem portsPhase_spec (c : Cfg) (it : Item) (ab : Abort) :
   · rename_i h0
     split
     · exact ⟨fun h => by simp at h, fun _ => outcome_data_novalue c it h0⟩
+    · exact ⟨fun h => by simp at h, fun _ => outcome_data_novalue c it h0⟩
     · exact ⟨fun _ => outcome_dataPorts c it, fun h => absurd rfl h⟩
 
-theorem stream_spec (c : Cfg) (it : Item) (ab : Abort) (derr : Bool) (n0 : Nat) (b : Int) :
+theorem stream_spec (c : Cfg) (hs : c.strictEnd = true) (it : Item) (ab : Abort) (derr : Bool) (n0 : Nat) (b : Int) :
     ((sendItem.stream c it ab derr n0 b).2.2 = .ok →
         outcome c (sendItem.stream c it ab derr n0 b).2.1 = delivered c it) ∧
     ((sendItem.stream c it ab derr n0 b).2.2 ≠ .ok →
         values (outcome c (sendItem.stream c it ab derr n0 b).2.1) = []) := by
-  unfold sendItem.stream
+  unfold sendItem.stream abandoned
   split
-  · exact ⟨fun h => by simp at h, fun _ => outcome_part_novalue ..⟩
+  · exact ⟨fun h => by simp at h, fun _ => outcome_part_novalue _ _ _ _ (Or.inl hs)⟩
+  · split
+    · exact ⟨fun h => by simp at h, fun _ => outcome_part_novalue _ _ _ _ (Or.inl hs)⟩
+    · rename_i hn
+      have h0 : it.halves ≠ 0 := fun h => hn (Or.inr (Or.inl h))
+      exact ⟨fun h => by simp at h, fun _ => outcome_data_novalue c it h0⟩
   · split
     · split
-      · exact ⟨fun h => by simp at h, fun _ => outcome_part_novalue ..⟩
-      · exact ⟨fun h => by simp at h, fun _ => outcome_part_novalue ..⟩
+      · exact ⟨fun h => by simp at h, fun _ => outcome_part_novalue _ _ _ _ (Or.inl hs)⟩
+      · exact ⟨fun h => by simp at h, fun _ => outcome_part_novalue _ _ _ _ (Or.inl hs)⟩
     · split
-      · exact ⟨fun h => by simp at h, fun _ => outcome_part_novalue ..⟩
+      · exact ⟨fun h => by simp at h, fun _ => outcome_part_novalue _ _ _ _ (Or.inl hs)⟩
       · exact portsPhase_spec c it ab
 
 /-- **Specification of `Sender::send`** for every item, heuristic state, abort point and race. -/
-theorem sendItem_spec (c : Cfg) (big : Int) (it : Item) (ab : Abort) (derr : Bool) (n0 : Nat) :
+theorem sendItem_spec (c : Cfg) (hs : c.strictEnd = true) (big : Int) (it : Item) (ab : Abort) (derr : Bool) (n0 : Nat) :
     EntrySpec c { item := it, res := (sendItem c big it ab derr n0).2.2, toks := (sendItem c big it ab derr n0).2.1 } := by
   unfold EntrySpec sendItem
   split
@@ -97,17 +109,22 @@ theorem sendItem_spec (c : Cfg) (big : Int) (it : Item) (ab : Abort) (derr : Boo
     split
     · exact ⟨fun h => by simp at h, fun _ => by simp [outcome_nil, values]⟩
     · split
-      · exact ⟨fun h => by simp at h, fun _ => outcome_part_novalue ..⟩
+      · exact ⟨fun h => by simp at h, fun _ => outcome_part_novalue _ _ _ _ (Or.inr rfl)⟩
+      · split
+        · exact ⟨fun h => by simp at h, fun _ => outcome_part_novalue _ _ _ _ (Or.inr rfl)⟩
+        · rename_i hn
+          have h0 : it.halves ≠ 0 := fun h => hn (Or.inr h)
+          exact ⟨fun h => by simp at h, fun _ => outcome_data_novalue c it h0⟩
       · exact portsPhase_spec c it ab
-  · exact stream_spec ..
-  · exact stream_spec ..
+  · exact stream_spec c hs ..
+  · exact stream_spec c hs ..
 
 theorem sendClosed_not_ok (c : Cfg) (big : Int) (it : Item) : (sendClosed c big it).2 ≠ .ok := by
   unfold sendClosed
   (repeat' split) <;> simp
 
 /-- every entry of the log of a reachable state meets its specification -/
-theorem log_spec_step (c : Cfg) (st st' : State) (l : Label) (h : ∀ e ∈ st.log, EntrySpec c e)
+theorem log_spec_step (c : Cfg) (hse : c.strictEnd = true) (st st' : State) (l : Label) (h : ∀ e ∈ st.log, EntrySpec c e)
     (hs : step c st l = some st') : ∀ e ∈ st'.log, EntrySpec c e := by
   cases l with
   | send it ab derr n0 =>
@@ -121,12 +138,14 @@ theorem log_spec_step (c : Cfg) (st st' : State) (l : Label) (h : ∀ e ∈ st.l
         rcases he with he | rfl
         · exact h e he
         · exact ⟨fun hok => absurd hok (sendClosed_not_ok c st.big it), fun _ => by simp [outcome_nil, values]⟩
-      · obtain rfl := Option.some.inj hs
+      · split at hs
+        · simp at hs
+        obtain rfl := Option.some.inj hs
         intro e he
         simp only [List.mem_append, List.mem_singleton] at he
         rcases he with he | rfl
         · exact h e he
-        · exact sendItem_spec ..
+        · exact sendItem_spec c hse ..
   | deliver =>
     simp only [step] at hs
     split at hs
@@ -150,7 +169,7 @@ theorem log_spec_step (c : Cfg) (st st' : State) (l : Label) (h : ∀ e ∈ st.l
     · obtain rfl := Option.some.inj hs; exact h
   | connLost => simp only [step] at hs; obtain rfl := Option.some.inj hs; exact h
 
-theorem log_spec (c : Cfg) (st : State) (h : Reachable c st) : ∀ e ∈ st.log, EntrySpec c e := by
+theorem log_spec (c : Cfg) (hse : c.strictEnd = true) (st : State) (h : Reachable c st) : ∀ e ∈ st.log, EntrySpec c e := by
   obtain ⟨ls, rfl⟩ := h
   suffices ∀ (s : State), (∀ e ∈ s.log, EntrySpec c e) → ∀ e ∈ (run c s ls).log, EntrySpec c e from
     this init (by simp [init])
@@ -160,7 +179,7 @@ theorem log_spec (c : Cfg) (st : State) (h : Reachable c st) : ∀ e ∈ st.log,
     intro s hs
     simp only [run]
     split
-    · rename_i s' hstep; exact ih s' (log_spec_step c s s' l hs hstep)
+    · rename_i s' hstep; exact ih s' (log_spec_step c hse s s' l hs hstep)
     · exact ih s hs
 
 /-! ### values and errors of the ideal output -/
